@@ -407,6 +407,8 @@ class Acl(AceGroup):
                     continue
             grouped_items_d[group_name].append(item)
 
+        # groups that are re-built keep their identity (uuid, note, sequence)
+        old_groups_d = {o.name: o for o in self._items if isinstance(o, AceGroup)}
         grouped_items: LUAceg = []
         for group_name, aces_items in grouped_items_d.items():
             if aces_items:
@@ -419,6 +421,10 @@ class Acl(AceGroup):
                     name=group_name,
                     items=aces_items,
                 )
+                if old_o := old_groups_d.get(aceg_o.name):
+                    aceg_o.uuid = old_o.uuid
+                    aceg_o.note = old_o.note
+                    aceg_o.sequence = old_o.sequence
                 grouped_items.append(aceg_o)
         self._items = grouped_items
         self._group_by = group_by
